@@ -470,7 +470,8 @@ def mod(x, y, out=None, out_like=None, sizing='optimal', method='raw', **kwargs)
     def _mod_repr(x, y):
         return x % y
     def _mod_raw(x, y, n_frac):
-        precision_cast = (lambda m: np.array(m, dtype=object)) if n_frac >= _n_word_max else (lambda m: m)
+        # the operands are aligned to the finer fraction first: the aligned codes may need more than 64 bits
+        precision_cast = (lambda m: np.array(m, dtype=object)) if _needs_python_int(x, y, n_frac) else (lambda m: m)
         return (x.val * precision_cast(2**(n_frac - x.n_frac))) % (y.val * precision_cast(2**(n_frac - y.n_frac)))
 
     if not isinstance(x, Fxp):
